@@ -9,6 +9,7 @@ mod escapemod;
 mod expectmod;
 mod genmod;
 mod mdmod;
+mod rendermod;
 mod rulesmod;
 mod updatemod;
 mod util;
@@ -23,6 +24,7 @@ fn main() {
         "diff-probe" => diffmod::probe(&args),
         "rules-replay" => rulesmod::replay(&args),
         "md-replay" => mdmod::replay(&args),
+        "render-replay" => rendermod::replay(&args),
         "yaml-replay" => yamlmod::replay(&args),
         "config-replay" => configmod::replay(&args),
         "update-replay" => updatemod::replay(&args),
